@@ -24,7 +24,7 @@ func init() {
 		ID:    "C01",
 		Level: "model_checking",
 		Rule: "choice-tree exploration: every corpus template x every assignment of <=k letters of {/*c*/, // c, newline, blank line, multi-line /*c*/} to its inter-token gaps, " +
-			"canonicalised with gofmt and deduplicated (state = canonical text); each distinct canonical file is pushed through Parse/Fprint, explicit Decorator+Restorer on a shared populated FileSet, " +
+			"canonicalised with gofmt and deduplicated (state = canonical text); each distinct canonical file is pushed through Parse/Fprint, explicit Decorator+Restorer on a shared populated FileSet (also: one Restorer restoring two files before either is printed), " +
 			"ParseFile with 3 parser modes and (k<=1) ParseDir; non-trivial = canonical file with at least one insertion",
 		Assumptions: []string{"go/format of this toolchain defines 'gofmt canonical'", "comment texts range over the alphabet only", "templates are the committed corpus"},
 		Units:       func(tier string) []string { return gapUnits(gen.Templates(), c01Shards) },
@@ -90,6 +90,41 @@ func checkC01(src string, withDir bool) core.Outcome {
 			return buf.String(), err
 		}},
 	}
+	eps = append(eps, ep{"one Restorer, two files restored, then both printed", func() (string, error) {
+		// explicit decorator and restorer on the caller's file set: restore the candidate, then a second
+		// file with the same Restorer, and only then print the first
+		fset := token.NewFileSet()
+		d := decorator.NewDecorator(fset)
+		fa, err := d.ParseFile("a.go", src, parser.ParseComments)
+		if err != nil {
+			return "", err
+		}
+		fb, err := d.ParseFile("b.go", siblingLong, parser.ParseComments)
+		if err != nil {
+			return "", err
+		}
+		r := decorator.NewRestorer()
+		r.Fset = fset
+		ra, err := r.RestoreFile(fa)
+		if err != nil {
+			return "", err
+		}
+		rb, err := r.RestoreFile(fb)
+		if err != nil {
+			return "", err
+		}
+		var ba, bb bytes.Buffer
+		if err := format.Node(&ba, fset, ra); err != nil {
+			return "", err
+		}
+		if err := format.Node(&bb, fset, rb); err != nil {
+			return "", err
+		}
+		if bb.String() != siblingLong {
+			return "", fmt.Errorf("second file restored by the same Restorer changed: %q", bb.String())
+		}
+		return ba.String(), nil
+	}})
 	for _, mode := range []parser.Mode{0, parser.ParseComments, parser.SkipObjectResolution} {
 		mode := mode
 		eps = append(eps, ep{fmt.Sprintf("ParseFile(mode=%d)+Restorer.Fprint", mode), func() (string, error) {
@@ -138,6 +173,10 @@ func checkC01(src string, withDir bool) core.Outcome {
 	}
 	return core.Outcome{OK: true}
 }
+
+// siblingLong has more lines than most candidates, so that a line table shared between two restored
+// files is visibly overwritten
+const siblingLong = "// Package a.\npackage a\n\nimport (\n\t\"fmt\"\n\n\t\"os\"\n)\n\n// f\nfunc f() {\n\tfmt.Println(os.Args)\n\n\t// done\n}\n\nvar (\n\ta = 1\n\n\tb = 2\n)\n"
 
 const siblingSrc = "package a\n\n// other file\nvar other = 1 // t\n"
 
